@@ -93,10 +93,20 @@ fn main() {
                     }
                 });
             }
+            // the case being executed is kept in current_case.txt (one pwrite per case, NUL terminated)
+            // so that the runner can name it if this process dies
             let cur_path = outdir.join("current_case.txt");
+            let cur_file = std::fs::File::create(&cur_path).unwrap();
+            let mut rec: Vec<u8> = Vec::new();
             for (idx, line) in g.cases.iter().enumerate() {
                 progress.store(idx, std::sync::atomic::Ordering::Relaxed);
-                let _ = std::fs::write(&cur_path, line);
+                {
+                    use std::os::unix::fs::FileExt;
+                    rec.clear();
+                    rec.extend_from_slice(line.as_bytes());
+                    rec.push(0);
+                    let _ = cur_file.write_at(&rec, 0);
+                }
                 let r = exec_line(line, &mut obs);
                 writeln!(cases, "{}", line).unwrap();
                 writeln!(imp, "{}", r).unwrap();
